@@ -32,6 +32,7 @@ namespace vm
         std::vector<std::vector<MNb>> nb;  // multiset of neighbours (with multiplicity)
         std::vector<double> x, y;          // node coordinates (for field generators)
         std::vector<long double> area;     // model cell areas
+        std::vector<long double> area_mag; // mesh: sum of |partial terms| (conditioning of the area)
         double total_tri_area = 0, min_sin = 1;  // mesh only
         bool mesh_has_obtuse = false, mesh_has_hole = false;
         std::vector<uint8_t> mesh_boundary;  // mesh: node on an edge seen in exactly one triangle
@@ -72,16 +73,25 @@ namespace vm
         return (bx - ax) * (cy - ay) - (cx - ax) * (by - ay);
     }
 
-    inline ModelGrid build_model(const GridSpec& sp)
+    inline ModelGrid build_model(const GridSpec& sp_in)
     {
+        GridSpec sp = sp_in;
+        if (sp.from_length && sp.kind != va::K_TRIMESH)
+        {
+            // the factory receives a total length and divides it by (n - 1)
+            if (sp.kind == va::K_RASTER)
+                sp.dy = (static_cast<double>(sp.rows - 1) * sp.dy) / (static_cast<double>(sp.rows) - 1);
+            sp.dx = (static_cast<double>(sp.cols - 1) * sp.dx) / (static_cast<double>(sp.cols) - 1);
+        }
         ModelGrid m;
-        m.spec = sp;
+        m.spec = sp_in;
         m.n = sp.size();
         m.status.assign(m.n, va::ST_CORE);
         m.nb.assign(m.n, {});
         m.x.assign(m.n, 0);
         m.y.assign(m.n, 0);
         m.area.assign(m.n, 0);
+        m.area_mag.assign(m.n, 0);
         auto fail = [&](const std::string& why)
         {
             if (!m.ctor_throws)
@@ -309,6 +319,7 @@ namespace vm
                     int a = (k + 1) % 3, b = (k + 2) % 3;
                     // edges adjacent to k are opposite to a and b
                     m.area[t[k]] += (l2[a] * cot[a] + l2[b] * cot[b]) / 8;
+                    m.area_mag[t[k]] += (fabsl(l2[a] * cot[a]) + fabsl(l2[b] * cot[b])) / 8;
                 }
             }
             m.total_tri_area = static_cast<double>(total);
